@@ -39,7 +39,8 @@ type Delivery struct {
 	// an error that merely wraps it is a failure like any other.
 	// 3: an error that calls itself temporary and a timeout (net.Error style);
 	// 4: wrapping syscall.EAGAIN; 5: wrapping syscall.EINTR; 6: wrapping
-	// os.ErrDeadlineExceeded; 7: wrapping io.ErrNoProgress. A failure is a failure
+	// os.ErrDeadlineExceeded; 7: wrapping io.ErrNoProgress; 8, 9: values of types that are not
+	// comparable (a list of errors; a struct holding a map). A failure is a failure
 	// whatever it calls itself: the statement says "any error other than end of input".
 	ErrWraps int `json:"err_wraps,omitempty"`
 	// Recover: the stream fails once and then carries on delivering (a transient
@@ -56,10 +57,28 @@ var SniffHook func(b []byte)
 
 type tempErr struct{}
 
-func (tempErr) Error() string   { return "verifsim: injected read error (resource temporarily unavailable)" }
+func (tempErr) Error() string {
+	return "verifsim: injected read error (resource temporarily unavailable)"
+}
 func (tempErr) Temporary() bool { return true }
 func (tempErr) Timeout() bool   { return true }
 func (tempErr) Unwrap() error   { return ErrInjected }
+
+// listErr and bagErr are errors whose dynamic types are not comparable (a list of errors, as
+// go/scanner.ErrorList or a validator's result; a struct holding a map, passed by value):
+// legal error values that must not be used as map keys or compared with == against their like.
+type listErr []error
+
+func (l listErr) Error() string   { return fmt.Sprintf("verifsim: %d errors, first: %v", len(l), l[0]) }
+func (l listErr) Unwrap() []error { return l }
+
+type bagErr struct {
+	ctx map[string]string
+	err error
+}
+
+func (b bagErr) Error() string { return "verifsim: injected read error " + b.ctx["op"] }
+func (b bagErr) Unwrap() error { return b.err }
 
 // Flavours of the injected error, by Delivery.ErrWraps.
 var flavours = []error{
@@ -69,7 +88,12 @@ var flavours = []error{
 	fmt.Errorf("%w (%w)", ErrInjected, syscall.EINTR),
 	fmt.Errorf("%w (%w)", ErrInjected, os.ErrDeadlineExceeded),
 	fmt.Errorf("%w (%w)", ErrInjected, io.ErrNoProgress),
+	listErr{ErrInjected, io.ErrShortBuffer},
+	bagErr{ctx: map[string]string{"op": "read"}, err: ErrInjected},
 }
+
+// NFlavours is the number of ErrWraps values.
+var NFlavours = len(flavours)
 
 // Flavour returns the error for an ErrWraps value >= 3 (nil otherwise).
 func Flavour(w int) error {
